@@ -402,11 +402,32 @@ def unguarded_partial_lookups(ctx: Ctx) -> List[Tuple[Graph, Ev, str]]:
                 seen.add(key)
                 gs = guards(ev.inst.unit.node, node)
                 cont, k = text(node.value), text(node.slice)
-                guarded = any(pol and isinstance(e, ast.Compare) and len(e.ops) == 1 and isinstance(e.ops[0], ast.In)
-                              and text(e.left) == k and text(e.comparators[0]) == cont for e, pol in gs)
+                guarded = any(pol and _is_membership_of(env, e, k, cont) for e, pol in gs)
                 in_try = _inside_try_catching(ev.inst.unit.node, node, ('KeyError', 'LookupError', 'Exception'))
                 res.append((g, ev, 'guarded' if guarded else ('caught' if in_try else 'unguarded')))
     return res
+
+
+def _is_membership_of(env: FuncEnv, e: ast.AST, k: str, cont: str, depth: int = 0) -> bool:
+    """`e` being true implies `k in cont`: the membership test itself, or a local flag every definition of which is
+    either that test or the constant False (`try: flag = k in cont except TypeError: flag = False`)."""
+    if isinstance(e, ast.Compare) and len(e.ops) == 1 and isinstance(e.ops[0], ast.In):
+        return text(e.left) == k and text(e.comparators[0]) == cont
+    if isinstance(e, ast.Name) and depth < 2:
+        defs = env.local_defs().get(e.id, [])
+        if not defs or not all(d[0] == 'assign' for d in defs):
+            return False
+        tests = 0
+        for d in defs:
+            v = d[1]
+            if isinstance(v, ast.Constant) and v.value is False:
+                continue
+            if _is_membership_of(env, v, k, cont, depth + 1):
+                tests += 1
+                continue
+            return False
+        return tests > 0
+    return False
 
 
 def hashed_user_values(ctx: Ctx) -> List[Tuple[Graph, Ev]]:
@@ -475,6 +496,16 @@ def rule_partial_lookups(ctx: Ctx, out: Collector) -> None:
                     f'{ev.text()} looks up a key that comes from a node result without a membership guard: a value no case / '
                     f'entry matches raises an engine-internal KeyError inside a task (outcome is a lookup error, or a hang when '
                     f'the task does not notify run())', props={'C02', 'C05', 'C09'})
+    # hashing of a value that comes from a node result (membership in a dict / set): an unhashable value raises TypeError
+    for g, ev in hashed_user_values(ctx):
+        cons = ctx.construct(ev) + ' [a node result is hashed]'
+        if _inside_try_catching(ev.inst.unit.node, ev.node, ('TypeError',)):
+            out.ok('ER-5', cons, ev.where(), 'the TypeError of an unhashable value is handled where the value is hashed')
+        else:
+            out.bad('ER-5', cons, ev.where(),
+                    f'{ev.text()} hashes a value that comes from a node result: for an unhashable one (a list, a dict) the engine\'s own '
+                    f'TypeError ends the task and becomes the outcome of the run (or a hang when the task does not notify run()) '
+                    f'instead of the documented error', props={'C05', 'C09', 'C02'})
     out.count('tainted_lookups', len(items))
     if not items:
         raise AnalysisError('no look-up keyed by a node result found (ER-5 anchor vanished: the switch label look-up)')
